@@ -14,6 +14,7 @@ CONSTANTS
  ReadTs = {10, 20, 25, 30, 35, 45, 50}
  Limits = {1, 16}
  Ops <- AllOps
+ Boosts = {0, 7}
  Dev = {"CommitAcceptsRollbackRecord"}
  GenMode = "any"
  MaxHist = 12
